@@ -899,8 +899,10 @@ fn gen_btf(r: &mut Rng) -> String {
     if with_nan {
         pool.push(NAN1);
         pool.push(NAN2);
-    } else {
-        // NaN-free programs may be larger: widen the universe with small integers
+    }
+    // widen the universe so that large programs build a multi-level B-tree (with the repaired total
+    // order a NaN key is an ordinary greatest key, in a tree of any size)
+    if !with_nan || r.chance(1, 2) {
         for i in -8i64..=8 {
             pool.push((i as f64 * 1.5).to_bits());
         }
@@ -908,13 +910,19 @@ fn gen_btf(r: &mut Rng) -> String {
         pool.push(f64::MIN.to_bits());
         pool.push((1u64 << 63) | 1); // negative subnormal
     }
-    let n = if with_nan { r.range(0, 30) } else { r.range(0, 45) };
+    let big = r.chance(1, 6);
+    if big {
+        for i in 0..40u64 {
+            pool.push((i as f64 * 0.25 + 100.0).to_bits());
+        }
+    }
+    let n = if big { r.range(60, 160) } else { r.range(0, 45) };
     let mut inserts = 0usize;
     let mut ops: Vec<String> = Vec::new();
     for _ in 0..n {
         let mut letter = pick_op_letter(r, true);
-        if with_nan && letter == 'i' && inserts >= 11 {
-            letter = 'g';
+        if big && r.chance(1, 2) {
+            letter = 'i';
         }
         let op = match letter {
             'i' => {
